@@ -32,5 +32,5 @@ struct SymExpr : Expression {
   Value& value(Context&) const override { ++evals; return *v; }
 };
 // operand kinds (instance parameters)
-enum Kind { K_NOTYPE = 0, K_BOOLEAN = 1, K_INTEGER = 2, K_NUMERIC = 3, K_LITERAL = 4, K_TABCHAR = 5, K_IMAGINARY = 6 };
+enum Kind { K_NOTYPE = 0, K_BOOLEAN = 1, K_INTEGER = 2, K_NUMERIC = 3, K_LITERAL = 4, K_TABCHAR = 5, K_IMAGINARY = 6, K_TABI = 7 /* table of integers */, K_TABD = 8 /* table of decimals */ };
 }
